@@ -242,6 +242,24 @@ def main():
     if mismatches:
         broken.append(("correspondence", f"{len(mismatches)} model/implementation differences", mismatches[0][0] + " on: " + mismatches[0][1][:300]))
 
+    # ---- 4b. Tier-1 hypothesis: the Two-Way certificate, evaluated by the model for every needle of this run
+    cert_stats = {}
+    if P.get("cert") and okm:
+        needles = sorted(set(kv.get("x", "") for kv in (vlib.parse_case(l)[1] for l in cases) if len(kv.get("x", "")) >= 2))
+        cpath = os.path.join(vlib.CASES, f"{pid}.{os.getpid()}.cert")
+        vlib.write_cases(cpath, [f"twcert x={x}" for x in needles])
+        try:
+            rows = vlib.run_model(cpath)
+        finally:
+            os.remove(cpath)
+        want = {"fwd": "fwd=true", "rev": "rev=true", "both": "fwd=true,rev=true"}[P["cert"]]
+        bad = [needles[i] for i, (r, _) in enumerate(rows[:len(needles)]) if want not in r]
+        cert_stats = dict(certificate_needles=len(needles), certificate_failures=len(bad),
+                          certificate_sample=needles[len(needles) // 2] if needles else "")
+        if bad or len(rows) < len(needles):
+            broken.append(("proof", "Two-Way certificate (Tier-1 hypothesis of the theorem)",
+                           f"tw_cert fails for {len(bad)} needles, e.g. x={bad[0] if bad else '?'}"))
+
     # ---- 5. escalation: something no longer checks but no failing input yet
     if broken and not violations and builds and tier == "quick" and P.get("escalate", True):
         log("escalating: broken obligation/correspondence, searching for a failing input with the thorough generators")
@@ -325,6 +343,7 @@ def main():
         broken=[f"{k}: {n}" for (k, n, d) in broken],
         exhaustive=False,
     )
+    coverage.update(cert_stats)
     coverage.update(P.get("extra_coverage", lambda: {})())
     vlib.write_evidence(pid, tier, seed, coverage, time.time() - t0, reported, P["assumptions"])
     for l in lines_out:
